@@ -164,6 +164,20 @@ def handleAlgo (d : DState) (line : String) : Option String :=
       | some a, some b => some (match edgeGen d.graph a b with | some i => toString i | none => "none")
       | _, _ => some "ERR parse"
     | ["vname"], [st] => (ints st).map vertexName
+    | ["bfs.numpy", md], [start] =>
+      match md.toNat?, start.toNat?, d.invMap with
+      | some md, some st, some im => some (showNats (bfsNumpy d.nGens d.act im st md))
+      | _, _, none => some "ERR not-inverse-closed"
+      | _, _, _ => some "ERR parse"
+    | ["bfs.bitset", md], [start] =>
+      match md.toNat?, start.toNat? with
+      | some md, some st => some (showNats (bfsBitset d.graph.nb st md))
+      | _, _ => some "ERR parse"
+    | ["lexrank"], [p] => (nats p).map fun p => toString (lexRank p)
+    | ["lexunrank", k], [avail] =>
+      match k.toNat?, nats avail with
+      | some k, some av => some (showNats (lexUnrank av.length av k))
+      | _, _ => some "ERR parse"
     | ["ibfs", steps], [starts] =>
       match steps.toNat?, nats starts with
       | some steps, some S =>
@@ -260,6 +274,13 @@ def handle0 (d : DState) (line : String) : DState × String :=
       | some depth, some S =>
         (d, showLL (refLayers d.graph.nb S depth))
       | _, _ => (d, "ERR parse")
+    | ["spec.growth", depth, cap], [starts] =>
+      match depth.toNat?, cap.toNat?, nats starts with
+      | some depth, some cap, some S =>
+        let r := refLayersCap d.graph.nb S depth cap
+        let flag := match r.2 with | .exhausted => "exhausted" | .depth => "depth" | .capped => "capped"
+        (d, s!"{showNats (r.1.map List.length)} ; {flag}")
+      | _, _, _ => (d, "ERR parse")
     | ["bfs"], [starts, opts, stop] =>
       match nats starts, ints opts, parseStop stop with
       | some S, some [maxStore, maxExplore, maxDiam, edges, hashes, nobatch], some stop =>
